@@ -696,3 +696,106 @@ Definition check_mech_restored (c : core_case) : bool := check_mech c && check_r
 Definition check_all (c : core_case) : bool := check_mech c && check_restored (fst c) && check_ms (fst c).
 Definition mech_unsup_p (p : prog) : bool :=
   match mrender_prog 200 p with MUnsup _ => false | _ => true end.
+
+(* ---------- the django-mode fragment for which M = S is proved (Core/MechDjango.v) ---------- *)
+(* with-binders of a template, tagged with "written inside the body of a component tag" *)
+Fixpoint withs_t (inbody : bool) (t : tpl) {struct t} : list (bool * str) :=
+  let wl := fix wl (inbody : bool) (ts : list tpl) {struct ts} : list (bool * str) :=
+    match ts with [] => [] | t :: r => withs_t inbody t ++ wl inbody r end in
+  match t with
+  | TIf _ a b => wl inbody a ++ wl inbody b
+  | TFor _ _ body => wl inbody body
+  | TWith x _ body => (inbody, x) :: wl inbody body
+  | TSlot _ _ _ _ body => wl inbody body
+  | TFill _ _ _ body => wl true body
+  | TComp _ _ _ body => wl true body
+  | TProvide _ _ body => wl inbody body
+  | _ => []
+  end.
+Fixpoint withs_l (inbody : bool) (ts : list tpl) : list (bool * str) :=
+  match ts with [] => [] | t :: r => withs_t inbody t ++ withs_l inbody r end.
+
+Definition prog_withs (p : prog) : list (bool * str) :=
+  withs_l false (p_page p) ++ flat_map (fun nc => withs_l false (c_tpl (snd nc))) (p_lib p).
+(* names bound at template level: page variables, get_context_data names, with-variables outside component-tag bodies *)
+Definition tb_of (p : prog) : list str :=
+  map fst (p_ctx p) ++ flat_map (fun nc => map fst (c_data (snd nc))) (p_lib p) ++
+  map snd (filter (fun bx => negb (fst bx)) (prog_withs p)).
+(* with-variables bound inside component-tag bodies (between tag and fill, or inside fill content) *)
+Definition xb_of (p : prog) : list str := map snd (filter (fun bx => fst bx) (prog_withs p)).
+
+Fixpoint wf_t_dj (TB XB : list str) (inbody : bool) (t : tpl) {struct t} : bool :=
+  let wl := fix wl (inbody : bool) (ts : list tpl) {struct ts} : bool :=
+    match ts with [] => true | t :: r => wf_t_dj TB XB inbody t && wl inbody r end in
+  match t with
+  | TText _ => true
+  | TOut e => expr_ok inbody e
+  | TIf c a b => expr_ok inbody c && wl inbody a && wl inbody b
+  | TFor _ _ _ => false
+  | TWith x e body => val_expr_ok e && binder_ok x && smemb x (if inbody then XB else TB) && wl inbody body
+  | TSlot _ _ _ data body => negb inbody && kw_ok false data && wl false body
+  | TFill name dv defv body =>
+      expr_ok true name && match defv with None => true | Some _ => false end &&
+      match dv with Some x => binder_ok x | None => true end && wl true body
+  | TComp _ kw only body => negb only && kw_ok inbody kw && wl true body
+  | TProvide _ _ _ => false
+  end.
+Definition wf_l_dj (TB XB : list str) : bool -> list tpl -> bool :=
+  fix wl (inbody : bool) (ts : list tpl) {struct ts} : bool :=
+    match ts with [] => true | t :: r => wf_t_dj TB XB inbody t && wl inbody r end.
+
+Definition wf_cdef_dj (TB XB : list str) (cd : cdef) : bool :=
+  forallb (fun xd => binder_ok (fst xd) && dexpr_ok (snd xd) && smemb (fst xd) TB) (c_data cd) &&
+  wf_l_dj TB XB false (c_tpl cd) &&
+  all_same (slot_defaults (c_tpl cd)).
+
+(* django context behaviour, no `only`; the fragment of wf_prog (no for, no provide/inject, no default= alias, no slot tag
+   and no is_filled test inside component-tag bodies; one name for the `default` slots per template); and NO with-variable
+   bound inside the body of a component tag has the name of a page variable, of a get_context_data variable or of a
+   with-variable bound at template level (pairwise distinct binder names imply this).  Shadowing is otherwise allowed. *)
+Definition wf_prog_django (p : prog) : bool :=
+  let TB := tb_of p in
+  let XB := xb_of p in
+  match p_mode p with Django => true | Isolated => false end &&
+  forallb (fun x => negb (smemb x TB)) XB &&
+  forallb (fun nc => wf_cdef_dj TB XB (snd nc)) (p_lib p) &&
+  forallb (fun kv => binder_ok (fst kv)) (p_ctx p) &&
+  wf_l_dj TB XB false (p_page p).
+
+Definition check_wf_ms_django (p : prog) : bool := negb (wf_prog_django p) || check_ms p.
+
+(* ---------- isolated fragment widened by provide / inject (Core/MechIsoProv.v) ---------- *)
+Fixpoint wf_tp (inbody : bool) (G : list str) (t : tpl) {struct t} : bool :=
+  let wl := fix wl (inbody : bool) (G : list str) (ts : list tpl) {struct ts} : bool :=
+    match ts with [] => true | t :: r => wf_tp inbody G t && wl inbody G r end in
+  match t with
+  | TText _ => true
+  | TOut e => expr_ok inbody e
+  | TIf c a b => expr_ok inbody c && wl inbody G a && wl inbody G b
+  | TFor _ _ _ => false
+  | TWith x e body => val_expr_ok e && binder_ok x && negb (smemb x G) && wl inbody (x :: G) body
+  | TSlot _ _ _ data body => negb inbody && kw_ok false data && wl false G body
+  | TFill name dv defv body =>
+      expr_ok true name && match defv with None => true | Some _ => false end &&
+      match dv with
+      | Some x => binder_ok x && negb (smemb x G) && wl true (x :: G) body
+      | None => wl true G body
+      end
+  | TComp _ kw _ body => kw_ok inbody kw && wl true G body
+  | TProvide _ kw body => kw_ok inbody kw && wl inbody G body
+  end.
+Fixpoint wf_lp (inbody : bool) (G : list str) (ts : list tpl) : bool :=
+  match ts with [] => true | t :: r => wf_tp inbody G t && wf_lp inbody G r end.
+
+Definition wf_cdef_p (cd : cdef) : bool :=
+  forallb (fun xd => binder_ok (fst xd)) (c_data cd) &&
+  wf_lp false (map fst (c_data cd)) (c_tpl cd) &&
+  all_same (slot_defaults (c_tpl cd)).
+
+(* wf_prog + {% provide %} anywhere (page, templates, slot defaults, component-tag bodies, fill content; any key - a
+   non-identifier key raises in both models) + inject() with or without default in get_context_data *)
+Definition wf_prog_prov (p : prog) : bool :=
+  match p_mode p with Isolated => true | Django => false end &&
+  forallb (fun nc => wf_cdef_p (snd nc)) (p_lib p) &&
+  forallb (fun kv => binder_ok (fst kv)) (p_ctx p) &&
+  wf_lp false (map fst (p_ctx p)) (p_page p).
